@@ -279,8 +279,9 @@ class Gen:
         k = r.random()
         t = None if k < 0.12 else (C("CustomType") if k < 0.2 else Some(r.choice([0, 1, 2, 3, 3, 3, 4])))
         eds = self.opt(lambda: r.choice(["", "svc-a", "outbound|80||a.default.svc.cluster.local", name]), 0.4)
-        od = self.opt(lambda: C("Build_outlier_pb", self.opt(lambda: r.choice([0, 1, 10, 50, 100]), 0.2),
-                                self.opt(lambda: r.choice([0, 1, 5, 100]), 0.2)), 0.4)
+        # both are uint32 wrappers: a percentage that may be out of range, a request count with no upper bound
+        od = self.opt(lambda: C("Build_outlier_pb", self.opt(lambda: r.choice([0, 1, 10, 50, 100, 101, 255, 4294967295]), 0.2),
+                                self.opt(lambda: r.choice([0, 1, 5, 100, 101, 250, 1000, 65536, 2147483648, 4294967295]), 0.2)), 0.4)
         la = self.opt(lambda: self.cla(r.choice([name, "other"])), 0.6)
         return C("Build_cluster_pb", name, t, r.choice([0, 0, 1, 2, 2, 3, 5, 6]), eds, od, la)
 
